@@ -817,4 +817,68 @@ example : outItems sample =
 example : collapseNestedLists [.str [97, 34], .nil, .int (-5), .list [.str [10]]] =
     [34, 97, 92, 34, 34, 32, 78, 73, 76, 32, 45, 53, 32, 40, 123, 49, 125, 13, 10, 10, 41] := by decide
 
+/-! ### The classes the white-box mutation audit added to the tie (harness/mutants/C42): depth and length without bound -/
+
+/-- `l` inside `d` more lists -/
+def nest : Nat → List Item → List Item
+  | 0, l => l
+  | d + 1, l => [.list (nest d l)]
+
+def nestOut : Nat → List Out → List Out
+  | 0, l => l
+  | d + 1, l => [.list (nestOut d l)]
+
+theorem okItems_nest (d : Nat) (l : List Item) (h : okItems l = true) : okItems (nest d l) = true := by
+  induction d with
+  | zero => exact h
+  | succ d ih => simp [nest, okItems, okItem, ih]
+
+theorem outItems_nest (d : Nat) (l : List Item) : outItems (nest d l) = nestOut d (outItems l) := by
+  induction d with
+  | zero => rfl
+  | succ d ih => simp [nest, nestOut, outItems, outItem, ih]
+
+/-- **any depth**: a structure inside `d` more lists (every `d`: no nesting limit, no recursion bound in the
+    model) comes back inside `d` lists -/
+theorem parse_collapse_deep (d : Nat) (l : List Item) (h : okItems l = true) :
+    parseNestedParens (collapseNestedLists (nest d l)) = .ok (nestOut d (outItems l)) := by
+  rw [← outItems_nest]
+  exact parse_collapse_partial _ (okItems_nest d l h)
+
+theorem okItems_append (a b : List Item) : okItems (a ++ b) = (okItems a && okItems b) := by
+  induction a with
+  | nil => simp [okItems]
+  | cons x r ih => simp [okItems, ih, Bool.and_assoc]
+
+theorem outItems_append (a b : List Item) : outItems (a ++ b) = outItems a ++ outItems b := by
+  induction a with
+  | nil => simp [outItems]
+  | cons x r ih => simp [outItems, ih]
+
+/-- **any length, any bytes in a literal**: a string the server sends as a literal (CR, LF, or longer than 1000
+    bytes — no upper bound on the length, so the `{n}` header may have any number of digits), with ANY bytes in it
+    (backslashes too), anywhere among items that satisfy the hypothesis, comes back as it is -/
+theorem parse_collapse_literal_any (pre post : List Item) (b : Bytes) (hb : needsLiteral b = true)
+    (hpre : okItems pre = true) (hpost : okItems post = true) :
+    parseNestedParens (collapseNestedLists (pre ++ .str b :: post)) =
+      .ok (outItems pre ++ .str b :: outItems post) := by
+  have := parse_collapse_partial (pre ++ .str b :: post)
+    (by simp [okItems_append, okItems, okItem, hb, hpre, hpost])
+  simpa [outItems_append, outItems, outItem] using this
+
+theorem needsLiteral_long (b : Bytes) (h : 1000 < b.length) : needsLiteral b = true := by
+  simp [needsLiteral, h]
+
+/-- every string longer than 1000 bytes round-trips, whatever its bytes and its length -/
+theorem parse_collapse_long (b : Bytes) (h : 1000 < b.length) :
+    parseNestedParens (collapseNestedLists [.str b]) = .ok [.str b] := by
+  simpa [outItems] using parse_collapse_literal_any [] [] b (needsLiteral_long b h) rfl rfl
+
+example : parseNestedParens (collapseNestedLists (nest 40 [.str [120], .nil])) =
+    .ok (nestOut 40 [.str [120], .none]) := parse_collapse_deep 40 _ (by decide)
+
+example : parseNestedParens (collapseNestedLists [.str (List.replicate 100000 92)]) =
+    .ok [.str (List.replicate 100000 92)] :=
+  parse_collapse_long _ (by rw [List.length_replicate]; omega)
+
 end TwistedProps.C42
